@@ -90,3 +90,47 @@ def replay(eng, ob, model, seed):
             "observed": w.get("should_run returned", w.get("problem")), "required": w.get("C01 prescribes"),
             "candidates_tried": tried, "witness_class": cls,
             "call": "gwf.scheduling.should_run(Target(inputs, outputs), fs, spec_hashes)"}
+
+
+def replay_fs(eng, ob, model, seed):
+    """the real CachedFilesystem on a temporary directory against os.stat: present / absent files, explicit mtimes
+    (also older than ctime), repeated queries"""
+    import os
+    import shutil
+    import tempfile
+    from gwf.core import CachedFilesystem
+    d = tempfile.mkdtemp(prefix="gwfverif-")
+    problems, tried = [], 0
+    try:
+        files = {"old.txt": 1000000000.0, "new.txt": 1500000000.5, "sub/deep.txt": 1234567890.25}
+        os.makedirs(os.path.join(d, "sub"))
+        for rel, mt in files.items():
+            open(os.path.join(d, rel), "w").close()
+            os.utime(os.path.join(d, rel), (mt + 77, mt))           # atime differs from mtime; ctime is now
+        for order in (sorted(files), sorted(files, reverse=True)):
+            fs = CachedFilesystem()
+            for rel in list(order) + ["missing.txt", "sub/missing.txt"] + list(order):
+                p = os.path.join(d, rel)
+                tried += 1
+                want_exists = rel in files
+                try:
+                    got = fs.exists(p)
+                except Exception as e:
+                    got = f"raised {type(e).__name__}"
+                if got != want_exists:
+                    problems.append(f"CachedFilesystem.exists({rel!r}) -> {got}, os.path.exists says {want_exists}")
+                try:
+                    mt = fs.changed_at(p)
+                except FileNotFoundError:
+                    mt = "FileNotFoundError"
+                except Exception as e:
+                    mt = f"raised {type(e).__name__}"
+                want = files.get(rel, "FileNotFoundError")
+                if mt != want:
+                    problems.append(f"CachedFilesystem.changed_at({rel!r}) -> {mt}, the file's modification time is {want}")
+    finally:
+        shutil.rmtree(d, ignore_errors=True)
+    if not problems:
+        return {"failed_on_real_code": False, "candidates_tried": tried, "bound": "3 files + 2 absent paths, two query orders"}
+    return {"failed_on_real_code": True, "input": {"files (mtime)": files}, "observed": problems[:4],
+            "candidates_tried": tried, "witness_class": "cached-filesystem", "call": "gwf.core.CachedFilesystem() on a temporary directory"}
